@@ -2,7 +2,6 @@ package vuego
 
 import (
 	"fmt"
-	"html"
 	"io"
 	"strings"
 	"sync"
@@ -22,9 +21,10 @@ func containsInterpolation(input string) bool {
 	return open == close && open > 0
 }
 
-// interpolateToWriter writes interpolated values to w, escaping for HTML safety.
-// This is the core implementation that does not allocate a string result.
-// For script and style tags, values are not HTML-escaped.
+// interpolateToWriter writes input to w with every {{ expr }} replaced by the string form
+// of its value. This is the core implementation that does not allocate a string result.
+// Escaping for HTML safety happens when the evaluated DOM is serialised (text outside
+// script and style tags, and every attribute value).
 func (v *Vue) interpolateToWriter(ctx VueContext, w io.Writer, input string) error {
 	if !strings.Contains(input, "{{") {
 		_, err := io.WriteString(w, input)
@@ -90,26 +90,11 @@ func (v *Vue) interpolateToWriter(ctx VueContext, w io.Writer, input string) err
 		}
 
 		if val != nil {
-			// Escape value for HTML output (unless in a script/style tag)
-			valStr := fmt.Sprint(val)
-			parentTag := ctx.CurrentTag()
-			// Skip escaping inside script and style tags, since they contain code/CSS, not HTML
-			if parentTag == "script" || parentTag == "style" {
-				if _, err := io.WriteString(w, valStr); err != nil {
-					return err
-				}
-			} else {
-				// Skip escaping if the string doesn't contain special characters
-				// (avoids allocation in html.EscapeString for most cases)
-				if !helpers.NeedsHTMLEscape(valStr) {
-					if _, err := io.WriteString(w, valStr); err != nil {
-						return err
-					}
-				} else {
-					if _, err := io.WriteString(w, html.EscapeString(valStr)); err != nil {
-						return err
-					}
-				}
+			// The value is substituted as it is: text nodes and attribute values hold
+			// unescaped characters (like the parser produces for static content) and are
+			// escaped exactly once, when the DOM is serialised.
+			if _, err := io.WriteString(w, fmt.Sprint(val)); err != nil {
+				return err
 			}
 		}
 
@@ -124,9 +109,8 @@ func (v *Vue) interpolateToWriter(ctx VueContext, w io.Writer, input string) err
 	return nil
 }
 
-// interpolate escapes interpolated values for HTML safety.
+// interpolate substitutes interpolated values; see interpolateToWriter.
 // Uses a buffer pool to minimize allocations.
-// For script and style tags, values are not HTML-escaped.
 func (v *Vue) interpolate(ctx VueContext, input string) (string, error) {
 	buf := bufferPool.Get().(*strings.Builder)
 	defer func() {
